@@ -831,6 +831,9 @@ def tasks(tier):
     for maxc, conc, K in ([(2, 1, 7), (1, 1, 6), (2, 2, 8)] if q else [(2, 1, 7), (1, 1, 6), (2, 2, 8), (3, 1, 8), (3, 2, 9)]):
         T.append(RateTest(maxc, conc, K))
     fam = ['ssh-rsa', 'rsa-sha2-256', 'rsa-sha2-512']
+    # a server may repeat a name in its host-key list: the bound is per TYPE, whatever the list's length
+    T.append(HostKeyPhase(('ssh-ed25519', 'ssh-ed25519', 'ssh-ed25519')))
+    T.append(HostKeyPhase(('ssh-rsa', 'ssh-ed25519', 'ssh-rsa', 'ssh-ed25519')))
     for kts in ([('ssh-rsa',), tuple(fam), ('ssh-ed25519', 'rsa-sha2-512'), ('ssh-rsa', 'ssh-rsa-cert-v01@openssh.com', 'ssh-ed25519')] if q else
                 [('ssh-rsa',), tuple(fam), ('ssh-ed25519', 'rsa-sha2-512'), ('ssh-rsa', 'ssh-rsa-cert-v01@openssh.com', 'ssh-ed25519'), ('ecdsa-sha2-nistp256', 'ssh-dss'),
                  ('rsa-sha2-256', 'ssh-ed25519', 'ssh-ed25519-cert-v01@openssh.com', 'ecdsa-sha2-nistp521')]):
